@@ -1,9 +1,31 @@
 import PySMT.Core.DriverLib
-open PySMT PySMT.DriverLib PySMT.Wire
+import PySMT.Impl.Simplifier
+/-! Driver of C01 (and of the `simp` part of C02).
+
+* `simp <term>`  → `encTerm (simp t)` | `out-of-fragment` (some operator of `t` has no rule yet) | `bad-shape` (`t.wf = false`:
+  the harness only sends formulas built by the FormulaManager, so this never happens)
+* `rule <term>`  → for `t = node op args p`: `encTerm (rule_op p args)` — ONE rule application to the given (already
+  simplified) arguments, whatever they are | `out-of-fragment`
+* `frag <term>`  → `true`/`false` : `inFrag t` (rules and guards: the fragment the theorems cover)
+-/
+open PySMT PySMT.DriverLib PySMT.Wire PySMT.Simplifier
+
 def main : IO Unit := loop fun line =>
   let toks := Wire.tokens line
   match toks[0]? with
-  | some "simp" => handle (do let _ ← term; return "out-of-fragment") toks
+  | some "simp" => handle (do
+      let t ← term
+      if !hasRules t then return "out-of-fragment"
+      if !t.wf then return "bad-shape"
+      return encTerm (simp t)) toks
+  | some "rule" => handle (do
+      let t ← term
+      match t with
+      | .node op args p =>
+        match ruleOf op with
+        | some e => return encTerm (e.rule p args)
+        | none => return "out-of-fragment") toks
+  | some "frag" => handle (do let t ← term; return toString (inFrag t)) toks
   | _ => match coreAnswer toks with
     | some a => a
     | none => "bad-op"
